@@ -5,20 +5,23 @@ import pkgutil
 
 
 class Clause:
-    __slots__ = ("label", "expr", "props")
+    __slots__ = ("label", "expr", "props", "needs")
 
-    def __init__(self, label, expr, props=()):
+    def __init__(self, label, expr, props=(), needs=None):
         self.label = label
         self.expr = " ".join(expr.split()) if isinstance(expr, str) else expr
         self.props = tuple(props)
+        # proof hint (sound: it only REMOVES hypotheses): of the labelled invariant clauses assumed on the path, only
+        # those named here (and the clause itself) are handed to the solver when this clause is to be proved
+        self.needs = None if needs is None else tuple(needs)
 
     def __repr__(self):
         return "%s: %s" % (self.label, self.expr)
 
 
-def C(label, expr, *props):
+def C(label, expr, *props, needs=None):
     """A labelled clause, optionally restricted to some properties."""
-    return Clause(label, expr, props)
+    return Clause(label, expr, props, needs)
 
 
 def _clauses(xs, prefix):
